@@ -87,9 +87,15 @@ fn gen_text(ch: &mut Ch, max: usize, structural: bool) -> String {
 
 fn gen_doc(ch: &mut Ch) -> Doc {
     let newlines = ch.below(2, "sink.newlines") == 1;
-    let nl = ch.below(if thorough() { 7 } else { 5 }, "sink.nlinks") as usize;
+    // now and then a document with several hundred (mostly bare) links
+    let crowd = ch.chance(1, 40, "sink.crowd");
+    let nl = if crowd { 250 + ch.below(60, "sink.nlinks.crowd") as usize } else { ch.below(if thorough() { 7 } else { 5 }, "sink.nlinks") as usize };
     let mut links = Vec::new();
-    for _ in 0..nl {
+    for li in 0..nl {
+        if crowd && !ch.chance(1, 50, "sink.crowd.rich") {
+            links.push((format!("/{}", li), vec![]));
+            continue;
+        }
         // targets: any text without '>'
         // now and then the empty reference <>
         let target = if ch.chance(1, 10, "sink.empty-target") { String::new() } else { format!("/{}", gen_text(ch, 6, true).replace('>', "x")) };
@@ -102,7 +108,11 @@ fn gen_doc(ch: &mut Ch) -> Doc {
                     let structural = ch.below(2, "sink.plain.structural") == 1;
                     Attr::Plain(key.into(), gen_text(ch, 5, structural))
                 }
-                1 => Attr::Quoted(key.into(), gen_text(ch, 6, true)),
+                1 => {
+                    // now and then a long value (several buffers' worth)
+                    let max = if ch.chance(1, 10, "sink.quoted.long") { 40 + ch.below(100, "sink.quoted.max") as usize } else { 6 };
+                    Attr::Quoted(key.into(), gen_text(ch, max, true))
+                }
                 2 => Attr::U32(key.into(), *ch.pick(&[0u32, 7, 40, 65536, u32::MAX], "sink.u32")),
                 _ => Attr::U16(key.into(), *ch.pick(&[0u16, 9, 50, u16::MAX], "sink.u16")),
             });
@@ -162,6 +172,55 @@ fn calls_per_link(doc: &Doc) -> Vec<usize> {
     v
 }
 
+/// The complete document as RFC 6690 (and the writer's documentation) define
+/// it, rendered independently of the writer.
+fn reference_render(doc: &Doc) -> String {
+    let mut s = String::new();
+    let quoted = |s: &mut String, v: &str| {
+        s.push('"');
+        for c in v.chars() {
+            if c == '"' || c == '\\' {
+                s.push('\\');
+            }
+            s.push(c);
+        }
+        s.push('"');
+    };
+    for (i, (target, attrs)) in doc.links.iter().enumerate() {
+        if i > 0 {
+            s.push(',');
+            if doc.newlines {
+                s.push_str("\n\r");
+            }
+        }
+        s.push('<');
+        s.push_str(target);
+        s.push('>');
+        for a in attrs {
+            s.push(';');
+            match a {
+                Attr::Plain(k, v) => {
+                    s.push_str(k);
+                    s.push('=');
+                    if v.chars().all(|c| c.is_ascii_alphanumeric()) {
+                        s.push_str(v);
+                    } else {
+                        quoted(&mut s, v);
+                    }
+                }
+                Attr::Quoted(k, v) => {
+                    s.push_str(k);
+                    s.push('=');
+                    quoted(&mut s, v);
+                }
+                Attr::U32(k, v) => s.push_str(&format!("{}={}", k, v)),
+                Attr::U16(k, v) => s.push_str(&format!("{}={}", k, v)),
+            }
+        }
+    }
+    s
+}
+
 fn call_kind(s: &str) -> &'static str {
     match s {
         "," => "link-separator",
@@ -201,6 +260,11 @@ pub fn run(ch: &mut Ch, verbose: bool) -> Outcome {
     }
     if full != clean.sink.calls.concat() {
         out.violations.push(Violation::new("C18", "ok-complete", "sink content differs from the concatenation of its calls".into()));
+    }
+    let reference = reference_render(&doc);
+    if full != reference {
+        let at = full.bytes().zip(reference.bytes()).position(|(a, b)| a != b).unwrap_or(full.len().min(reference.len()));
+        out.violations.push(Violation::new("C18", "ok-complete", format!("fault-free output ({} bytes) is not the complete document ({} bytes); first difference at byte {} ({} links, newlines={})", full.len(), reference.len(), at, doc.links.len(), doc.newlines)).with_sig("incomplete"));
     }
     let per_link = calls_per_link(&doc);
     if verbose {
